@@ -650,7 +650,15 @@ class DiskFile(VirtualFileContainer):
         if len(file_data) < (DiskConstants.HALF_TRACK_LEN - skip_bytes):
             pointer = self.write_bytes_to_buffer(pointer, file_data)
             if postamble:
-                postamble.write(self.buffer, pointer)
+                # The postamble may straddle the end of this granule, in which case the
+                # rest of it belongs at the start of the next granule allocated to the file
+                postamble_bytes = [0x00] * postamble.length
+                postamble.write(postamble_bytes, 0)
+                remaining = DiskConstants.HALF_TRACK_LEN - skip_bytes - len(file_data)
+                self.write_bytes_to_buffer(pointer, postamble_bytes[:remaining])
+                if remaining < postamble.length:
+                    pointer = self.seek_granule(allocated_granules[0])
+                    self.write_bytes_to_buffer(pointer, postamble_bytes[remaining:])
         else:
             self.write_bytes_to_buffer(pointer, file_data[:DiskConstants.HALF_TRACK_LEN - skip_bytes])
             self.write_to_granules(
